@@ -182,7 +182,7 @@ def evaluate(dic, cmd, cfg, emitted, with_constraints=None):
         return fails + [(f"eval:density-raises:{type(e).__name__}:{who}",
                          f"evaluating {target_id} raised {type(e).__name__} in `{who}`: {str(e)[:120]}")]
     if not bool(torch.isfinite(lp).all()):
-        bad = [m.id for m in flatten_models(dic["joint"]) if not bool(torch.isfinite(m()).all())]
+        bad = [m.id for m in flatten_models(target) if not bool(torch.isfinite(m()).all())]
         fails.append(("eval:density-not-finite:" + ",".join(sorted(str(b) for b in bad))[:60],
                       f"{target_id} = {lp.tolist()} at the initial point (non-finite terms: {bad})"))
         return fails
@@ -273,11 +273,122 @@ def close(a, b, tol=1e-6):
     return math.isclose(a, b, rel_tol=tol, abs_tol=tol)
 
 
+def parse_newick(s):
+    """tiny independent newick reader: -> nested (name, length, children)"""
+    s = s.strip().rstrip(";")
+    pos = [0]
+
+    def node():
+        children = []
+        if s[pos[0]] == "(":
+            pos[0] += 1
+            while True:
+                children.append(node())
+                if s[pos[0]] == ",":
+                    pos[0] += 1
+                    continue
+                pos[0] += 1  # ")"
+                break
+        j = pos[0]
+        while j < len(s) and s[j] not in ",():":
+            j += 1
+        name = s[pos[0]:j]
+        pos[0] = j
+        length = 0.0
+        if j < len(s) and s[j] == ":":
+            k = j + 1
+            while k < len(s) and s[k] not in ",()":
+                k += 1
+            length = float(s[j + 1:k])
+            pos[0] = k
+        return (name, length, children)
+
+    return node()
+
+
+def root_to_tip_regression(newick):
+    """independent (numpy) root-to-tip regression: -> (rate, date of the root); dates are the trailing _<number> of the names"""
+    import numpy as np
+
+    tips = []
+
+    def walk(n, d):
+        name, length, children = n
+        if not children:
+            tips.append((float(name.rsplit("_", 1)[1]), d + length))
+        for c in children:
+            walk(c, d + length)
+
+    name, _l, children = parse_newick(newick)
+    for c in children:
+        walk(c, 0.0)
+    t = np.array([a for a, _ in tips])
+    y = np.array([b for _, b in tips])
+    slope, intercept = np.polyfit(t, y, 1)
+    return float(slope), float(-intercept / slope), float(t.max())
+
+
+def constant_theta_mle(tip_heights, internal_heights):
+    """independent MLE of the constant population size given a dated genealogy: sum_k C(k,2) dt / (number of coalescences)"""
+    events = sorted([(h, +1) for h in tip_heights] + [(h, -1) for h in internal_heights], key=lambda e: (e[0], -e[1]))
+    k, last, total = 0, events[0][0], 0.0
+    for h, d in events:
+        total += k * (k - 1) / 2.0 * (h - last)
+        last = h
+        k += d
+    return total / len(internal_heights)
+
+
 def check_init(dic, cfg):
     import torch
+    import c19_cli as C
 
     fails = []
     init = cfg.get("init")
+    TIPS, INTERNAL = [4.0, 3.0, 1.5, 1.0, 0.0, 0.0], [1.0, 2.0, 3.5, 5.0, 6.0]
+
+    def root_height():
+        t = dic.get("tree")
+        return None if t is None else float(t.node_heights.detach().reshape(-1)[-1])
+
+    if init in ("coalescent_init_one", "rate_init_one", "brlens_init_one", "root_height_init_unit"):
+        pid, want, opt = {"coalescent_init_one": ("coalescent.theta", 1.0, "--coalescent_init 1"),
+                          "rate_init_one": ("branchmodel.rate", 1.0, "--rate_init 1.0"),
+                          "brlens_init_one": ("tree.blens", 1.0, "--brlens_init 1.0"),
+                          "root_height_init_unit": (None, 5.0, "--root_height_init 5.0")}[init]
+        if pid is None:
+            h = root_height()
+            if h is not None and not close(h, want):
+                fails.append(("eval:init:root_height_init", f"{opt} but the root height is {h!r}"))
+        elif pid in dic and not (init == "rate_init_one" and cfg.get("clock") != "strict"):
+            v = dic[pid].tensor.detach().reshape(-1).tolist()
+            if not all(close(x, want) for x in v):
+                fails.append((f"eval:init:{init[:-4]}", f"{opt} but {pid} = {v}"))
+    if init in ("heights_init_regression", "rate_init_regression") and cfg.get("clock"):
+        slope, root_date, max_date = root_to_tip_regression(C.ROOTED_SUBST)
+        want_h = max_date - root_date
+        h = root_height()
+        if h is not None and not close(h, want_h, 1e-4):
+            fails.append((f"eval:init:{init}:root-height",
+                          f"--{init.replace('_regression', '')} regression: root-to-tip regression puts the root {want_h:.6f} before "
+                          f"the youngest tip but the model starts with root height {h!r}"))
+        if cfg.get("clock") == "strict" and "branchmodel.rate" in dic:
+            v = dic["branchmodel.rate"].tensor.detach().reshape(-1).tolist()
+            if not all(close(x, slope, 1e-4) for x in v):
+                fails.append((f"eval:init:{init}:rate",
+                              f"--{init.replace('_regression', '')} regression: the regression slope is {slope:.6g} but branchmodel.rate = {v}"))
+    if init in ("coalescent_init_tree", "coalescent_init_constant") and cfg.get("treeprior") in ("constant", "exponential"):
+        want = constant_theta_mle(TIPS, INTERNAL)
+        if "coalescent.theta" in dic:
+            v = dic["coalescent.theta"].tensor.detach().reshape(-1).tolist()
+            if not all(close(x, want, 1e-5) for x in v):
+                fails.append((f"eval:init:{init}", f"--coalescent_init {init.rsplit('_', 1)[1]}: the maximum-likelihood constant "
+                              f"population size of the input tree is {want:.6f} but coalescent.theta = {v}"))
+    # a grid coalescent without explicit root height starts at max(cutoff, oldest tip) — strictly above the oldest tip
+    if cfg.get("treeprior") in S.COALESCENT_GRID and cfg.get("cutoff") and cfg.get("heights") == "ratio" and init is None:
+        h = root_height()
+        if h is not None and not close(h, max(cfg["cutoff"], 4.0)):
+            fails.append(("eval:init:cutoff-root-height", f"--cutoff {cfg['cutoff']}: root height {h!r}"))
 
     def val(i):
         o = dic.get(i)
